@@ -17,7 +17,7 @@ INFO = {
 }
 
 
-def run(ctx):
+def _run(ctx):
     prog = ctx.prog
     # anchors: the two bank-level changers by semantic signature
     def sole(owner, fld):
@@ -261,3 +261,12 @@ def run(ctx):
             dom = bool(ac) and A.set_dominates(h, [c.block for c in ac], cc[0].block)
             ctx.inst("C17.R4", "deposit/capacity-after-accrual", dom, "the remaining-capacity read is dominated by the interest accrual on the same bank (capacity is interest-inclusive)",
                      "capacity is read at %s before the accrual at %s" % (cc[0].loc, ac[0].loc if ac else "?") if not dom else "ok", cc[0].loc)
+
+
+def run(ctx):
+    from .kernels import check_kernels
+    try:
+        _run(ctx)
+    finally:
+        # numeric kernels this property's formulas rest on, pinned as canonical expression trees
+        check_kernels(ctx, "C17.K", ['remaining-deposit-capacity'])
